@@ -45,6 +45,59 @@ pub fn obs_c11(o: &Ontology) -> V {
     V::T(vec![V::L(ts), V::L(ps)])
 }
 
+fn obs_pairs(o: &Ontology, pairs: &[(u32, u32)]) -> V {
+    let mut terms: Vec<HpoTerm> = o.hpos().collect();
+    terms.sort_by_key(|t| t.id().as_u32());
+    let ts: Vec<V> = terms
+        .iter()
+        .map(|t| V::T(vec![n(t.id().as_u32()), ln(&gids(t.parent_ids())), ln(&gids(t.children_ids())), ln(&gids(t.all_parent_ids()))]))
+        .collect();
+    let ps: Vec<V> = pairs
+        .iter()
+        .map(|(x, y)| {
+            let a = o.hpo(HpoTermId::from(*x)).expect("term");
+            let b = o.hpo(HpoTermId::from(*y)).expect("term");
+            V::T(vec![n(*x), n(*y), enc_o(a.distance_to_ancestor(&b)), enc_p(a.path_to_ancestor(&b)), enc_o(a.distance_to_term(&b)), enc_p(a.path_to_term(&b))])
+        })
+        .collect();
+    V::T(vec![V::L(ts), V::L(ps)])
+}
+
+/// deep ontologies (one chain of 70-100 terms with a few side branches): selected pairs only
+pub fn cases_deep(rng: &mut Rng, count: usize, tier: &str) -> Vec<Case> {
+    let mut out = vec![];
+    while out.len() < count {
+        let mut o = Opts::default();
+        o.deep = true;
+        o.min_terms = 70;
+        o.max_terms = if tier == "thorough" { 130 } else { 100 };
+        o.max_records = 1;
+        o.roots_eighths = 8;
+        let mut tags = vec!["deep_chain"];
+        let (w, f) = world::gen_world(rng, o, &mut tags);
+        // the deepest term, the root, terms in between
+        let ids = f.ids();
+        let deepest = *ids.iter().max_by_key(|x| f.ancestors(**x).len()).unwrap();
+        let mut pairs: Vec<(u32, u32)> = vec![(deepest, 1), (1, deepest), (deepest, deepest)];
+        let anc: Vec<u32> = f.ancestors(deepest).into_iter().collect();
+        for _ in 0..4 {
+            let m = *rng.pick(&anc);
+            pairs.push((deepest, m));
+            pairs.push((m, deepest));
+        }
+        for _ in 0..6 {
+            pairs.push((*rng.pick(&ids), *rng.pick(&ids)));
+        }
+        let b = w.build();
+        let pc = pairs.clone();
+        let obs = world::on_onto(&b, move |ont: &Ontology| obs_pairs(ont, &pc));
+        tags.push("nt");
+        let input = V::T(vec![world::winput(&w, f.n_records()), V::L(pairs.iter().map(|(a, b)| V::T(vec![n(*a), n(*b)])).collect())]);
+        out.push(Case { input, obs, tags });
+    }
+    out
+}
+
 pub fn cases(rng: &mut Rng, count: usize, tier: &str) -> Vec<Case> {
     let mut out = vec![];
     while out.len() < count {
